@@ -39,6 +39,7 @@ def configs(tier):
     q.append(('every attribute name of <= 2 characters over 9 character classes / single attribute', dict(fam_kw=dict(shape='single_attr', names=('e',), anames=class_names(2)))))
     q.append(('same name under interleaved parents / three branches', dict(fam_kw=dict(shape='three_branches', names=('x', 'y', 'item')))))
     q.append(('same name below same-named parents, optional text-only siblings / deep pair', dict(fam_kw=dict(shape='deep_pair', names=('x', 'd', 'a'), text_siblings=True))))
+    q.append(('optional + repeated child whose name recurs elsewhere / rep_opt', dict(fam_kw=dict(shape='rep_opt', names=('b', 'c', 'd')))))
     q.append(('same name at many depths / deep', dict(fam_kw=dict(shape='deep', names=('a', 'b', 'r')))))
     q.append(('attributes vs children vs text / attrs', dict(fam_kw=dict(shape='attrs', names=('text', 'a', 'type', 'text_attr')))))
     if tier == 'quick': return q
